@@ -4,9 +4,11 @@ import (
 	"crypto/sha256"
 	"encoding/base64"
 	"fmt"
+	"maps"
 	"os"
 	"path/filepath"
 	"runtime"
+	"slices"
 	"sort"
 	"strings"
 	"sync"
@@ -139,7 +141,9 @@ func BuildEnvironment(state *BuildState, target *BuildTarget, tmpDir string) Bui
 // Sadly this can't be done as part of TargetEnv() target env as this requires the other
 // env vars are set so they can be substituted.
 func withUserProvidedEnv(target *BuildTarget, env BuildEnv) BuildEnv {
-	for k, v := range target.Env {
+	// Later entries can refer to earlier ones, so the order must not depend on map iteration.
+	for _, k := range slices.Sorted(maps.Keys(target.Env)) {
+		v := target.Env[k]
 		if strings.Contains(v, "$") {
 			v = os.Expand(v, func(k string) string {
 				if v, present := env[k]; present {
